@@ -6,7 +6,7 @@ import "fmt"
 // model of the statement "connecting succeeds iff the server completed every
 // mandatory step, in order".
 
-func okHeader(h int) bool { return h == HdrOK || h == HdrOKDecl }
+func okHeader(h int) bool { return h == HdrOK || h == HdrOKDecl || h == HdrOKForeignID }
 
 // certAccepted: does the client's TLS policy accept the presented chain for
 // the configured domain? (model of the statement, not of the code: trust in
@@ -190,7 +190,7 @@ func genNegScript(g G, devPct int) NegScript {
 		if g.Pct(kind+"-dev", devPct) {
 			return []int{HdrWrongRoot, HdrMalformed, HdrClose, HdrStreamError}[g.N(kind, 4)]
 		}
-		return []int{HdrOK, HdrOKDecl}[g.N(kind+"-var", 2)]
+		return []int{HdrOK, HdrOKDecl, HdrOKForeignID}[g.N(kind+"-var", 3)]
 	}
 	s.Header = hdr("hdr1")
 	s.Header2 = hdr("hdr2")
